@@ -4,6 +4,7 @@ use crate::core::{RunCtx, harness_error};
 
 pub mod c01;
 pub mod c02;
+pub mod c03;
 pub mod c05;
 pub mod c06;
 pub mod c08;
@@ -15,12 +16,13 @@ pub mod c13;
 pub mod c14;
 pub mod c20;
 
-pub const ALL: &[&str] = &["C01", "C02", "C05", "C06", "C08", "C09", "C10", "C11", "C12", "C13", "C14", "C20"];
+pub const ALL: &[&str] = &["C01", "C02", "C03", "C05", "C06", "C08", "C09", "C10", "C11", "C12", "C13", "C14", "C20"];
 
 pub fn run(id: &str, ctx: &RunCtx) -> i32 {
     match id {
         "C01" => c01::run(ctx),
         "C02" => c02::run(ctx),
+        "C03" => c03::run(ctx),
         "C05" => c05::run(ctx),
         "C06" => c06::run(ctx),
         "C08" => c08::run(ctx),
@@ -53,6 +55,7 @@ pub fn replay(path: &str) -> i32 {
     match prop {
         "C01" => c01::replay(&v),
         "C02" => c02::replay(&v),
+        "C03" => c03::replay(&v),
         "C05" => c05::replay(&v),
         "C06" => c06::replay(&v),
         "C08" => c08::replay(&v),
